@@ -169,3 +169,38 @@ func Eip712VerifySignature(expected common.Address, tm interface{}, r, s [32]byt
 	}
 	return Eip712Recovered == expected, Eip712Recovered, nil
 }
+
+// ---- queries used by transfer() ------------------------------------------------------------------------------
+
+var (
+	// Delegations of the caller as the staking keeper returns them (the harness fixes the order)
+	Delegations []stakingtypes.Delegation
+	// Validators by operator address; LastValidators in the order IterateLastValidators visits them
+	Validators     map[string]stakingtypes.Validator
+	LastValidators []string
+)
+
+func SKGetAllDelegatorDelegations(_ interface{}, _ context.Context, _ sdk.AccAddress) ([]stakingtypes.Delegation, error) {
+	return append([]stakingtypes.Delegation(nil), Delegations...), nil
+}
+
+func SKValidator(_ interface{}, _ context.Context, addr sdk.ValAddress) (stakingtypes.ValidatorI, error) {
+	v, ok := Validators[addr.String()]
+	if !ok {
+		return nil, stakingtypes.ErrNoValidatorFound
+	}
+	return v, nil
+}
+
+func SKIterateLastValidators(_ interface{}, _ context.Context, fn func(index int64, validator stakingtypes.ValidatorI) (stop bool)) error {
+	for i, op := range LastValidators {
+		if fn(int64(i), Validators[op]) {
+			break
+		}
+	}
+	return nil
+}
+
+func DKDelegationTotalRewards(_ interface{}, _ context.Context, _ *disttypes.QueryDelegationTotalRewardsRequest) (*disttypes.QueryDelegationTotalRewardsResponse, error) {
+	return &disttypes.QueryDelegationTotalRewardsResponse{}, nil
+}
